@@ -371,6 +371,7 @@ theorem row_columns_ok (net : Net ι ℝ) (nobs : List (NObs ι ℝ)) (no : NObs
 /-- **`RowsOK` of the dump from the decidable input predicate** -/
 theorem dump_rowsOK (net : Net ι ℝ) (sd : ℝ) (cls : List (Cluster ι ℝ)) (hd : DistinctRoles cls) :
     RowsOK (dumpOfR net sd cls) := by
+  apply RowsOK.of_nodup
   intro i hi
   have hi' : i < (netEqsR net (nobsOf cls)).length := hi
   rw [dump_rows_getD net sd cls i hi']
